@@ -79,14 +79,14 @@ PROPS["C07"] = {
     "assumptions": ["batch nodes have an exec function (has_exec)"],
 }
 PROPS["C08"] = {
-    "parts": [_BATCH],
-    "level_text": "Theorems over ALL schedules: C08_upper - never more than `workers` exec calls (or tasks) in flight; C08_usable - in every reachable quiescent state (no step of the submitter or of a worker outside an exec call enabled) before the end, EVERY worker is inside an exec call or all n items have been handed out: c blocking executions do run simultaneously; C08_no_deadlock; workers = max 1 c. Correspondence: at every quiescent point of every gated run the set of exec calls in flight observed on the implementation equals the model's (both bounds exactly, no timing thresholds); c=0 runs must be strictly sequential in item order; scenarios in which the controller sits on a quiescent point with a full queue for 150 ms (thorough: 1.2 s) before releasing anything (a Submit that gives up blocking after a while shows as an extra call in flight).",
+    "parts": [_BATCH, {"family": "batchprobe", "admits": "BatchStressCorr.spec_C08_probe", "model_obs": None, "timeout": 600}],
+    "level_text": "Theorems over ALL schedules: C08_upper - never more than `workers` exec calls (or tasks) in flight; C08_usable - in every reachable quiescent state (no step of the submitter or of a worker outside an exec call enabled) before the end, EVERY worker is inside an exec call or all n items have been handed out: c blocking executions do run simultaneously; C08_no_deadlock; workers = max 1 c. Correspondence: at every quiescent point of every gated run the set of exec calls in flight observed on the implementation equals the model's (both bounds exactly, no timing thresholds); c=0 runs must be strictly sequential in item order; scenarios in which the controller sits on a quiescent point with a full queue for 150 ms (thorough: 1.2 s) before releasing anything (a Submit that gives up blocking after a while shows as an extra call in flight). Second part: 2 and 3 batches of concurrency 1..4 running at the same time, c items each, every exec call waiting for all calls of all batches: each batch has c workers of its own (C08_usable per batch), so the rendezvous completes; workers shared between batches would not let it.",
     "level_note": _TB, "explanation": "structural bound + enabledness analysis of quiescent states; in-flight sets compared at every quiescent point",
     "assumptions": ["queue capacity > 0 (the code uses 2*workers)"],
 }
 PROPS["C09"] = {
     "parts": [_BATCH, {"family": "batchstress", "admits": "BatchStressCorr.spec_C09_stress", "model_obs": None, "timeout": 600}],
-    "level_text": "Theorems over ALL schedules: C09_stop_skips - once the stop flag is up, an item whose task has not passed its stop-flag check is never executed (its events stay empty for every continuation of every schedule), so only tasks already received by the other workers can still run; C09_stop_flag_permanent; C09_no_fake_success - for every mode and schedule the slot of an item without events is an error slot. Correspondence: first failing item at every position for n<=8 (quick) / 16, c in 0..4, both modes, failing item released first / last / randomly; spec_C09 walks the implementation's trace (after the final failure only calls of items in flight at the last quiescent point may appear). Second part, free-running (ungated) stop-mode batches of 200 000 (quick) / 400 000 items with two workers: item 0 is held in flight until 20..60 ms after one of items 1..3 failed while the queue takes several times longer to drain; judged by 'no executed item (at most one) has a larger index than a skipped item', plus no fake success, own result per executed item, one post with n results.",
+    "level_text": "Theorems over ALL schedules: C09_stop_skips - once the stop flag is up, an item whose task has not passed its stop-flag check is never executed (its events stay empty for every continuation of every schedule), so only tasks already received by the other workers can still run; C09_stop_flag_permanent; C09_no_fake_success - for every mode and schedule the slot of an item without events is an error slot. Correspondence: first failing item at every position for n<=8 (quick) / 16, c in 0..4, both modes, failing item released first / last / randomly; spec_C09 walks the implementation's trace (after the final failure only calls of items in flight at the last quiescent point may appear). Second part, free-running (ungated) stop-mode batches of 200 000 (quick) / 400 000 items with two workers: item 0 is held in flight until 20..60 ms after one of items 1..3 failed while the queue takes several times longer to drain; judged by 'no executed item (at most one) is larger than a skipped item AND larger than the failing item', plus no fake success, own result per executed item, one post with n results.",
     "level_note": _TB + " For two workers and exactly one failing item the bound of the free-running part holds for every schedule, by an argument on paper from C09_stop_flag_permanent and C07_one_worker_per_item (DESIGN.md 14.5), not machine-checked. Which interleavings the free runs reach is up to the Go scheduler.",
     "explanation": "unstarted-items invariant for all continuations; stop position sweep",
     "assumptions": [],
